@@ -453,7 +453,7 @@ package pongo2
 //@ type ExecutionContext
 //@   invariant {C01} self.template != nil
 //@ type Parser
-//@   invariant {C01} self.template != nil
+//@   invariant {C01,C03} self.template != nil
 //@ type Template
 //@   invariant {C01} self.size >= 0 && self.size <= 4611686018427387903
 //@ type tagIfNode
@@ -467,9 +467,10 @@ package pongo2
 //@ extern rand.Intn(n) (r0)
 //@   requires {C01} @positive n > 0
 //@   ensures 0 <= r0 && r0 < n
+// a parser always belongs to a template: the sandbox checks of the parser consult the ban lists of p.template.set (C03)
 //@ func newParser
 //@   flag returns-fresh
-//@   requires {C01} @template-given template != nil
+//@   requires {C01,C03} @template-given template != nil
 //@   ensures fresh(r0) && r0 != nil && r0.name == name && r0.tokens == tokens && r0.template == template && r0.idx == 0
 //@   ensures len(tokens) > 0 ==> r0.lastToken == tokens[len(tokens) - 1]
 //@ func newExecutionContext
@@ -1515,3 +1516,8 @@ package pongo2
 // until the stack overflowed ({% cycle x as x %} in a loop)
 //@ type tagCycleValue
 //@   invariant {C01} self.value == nil || !typeis(VInterface(self.value), "*tagCycleValue")
+
+// filters apply everywhere an expression can be written, also to the items of a list literal: each item is evaluated
+// by its own evaluator (which applies its filter chain), in the current scope
+//@ func (*variableResolver).resolve
+//@   at IEvaluator.Evaluate#0 requires {C19} @each-item-of-a-list-literal-is-evaluated-with-its-own-filters arg0 == part.subscript && arg1 == ctx
